@@ -11,10 +11,65 @@ GOENV = dict(os.environ, GOFLAGS="-mod=mod", GOPROXY="off", GOSUMDB="off", GOTOO
 
 T_GO = "Go runtime and standard library (modelled by interface, not verified)"
 
+T_CRYPTO = "x/crypto argon2 / scrypt, HMAC-SHA256, crypto/rand: digests are an uninterpreted function in the model, supplied to the driver by an oracle table the harness fills by calling x/crypto directly (never through the store package)"
+T_FS = "the file system is modelled as a finite map from entry names to nodes (flat base directory); os/bufio/strconv/base64 of the Go standard library are modelled explicitly (Model/Record.lean, Model/Base64.lean)"
 NOT_APPLICABLE = {}
 HOOK_COMMITS = []
 
 PROPS = {
+    "C01": dict(
+        modules=["Whawty.Props.C01"],
+        suites=[("hdrv", "c01")],
+        level_text="Store operations are pure functions on a directory map following store.go / userhash.go branch by "
+                   "branch; write-then-authenticate (verdict = digest equality with the last written password, via the "
+                   "proved record and base64 round trips), frame theorems for every other user, set-admin / remove "
+                   "behaviour and the PBKDF2-HMAC key equivalence are Lean theorems; every step of generated histories "
+                   "on a real store.Dir is compared with the model (pre-snapshot, operation, post-snapshot, verdicts) and "
+                   "with the harness's own sequential specification.",
+        rule="Histories of 10-35 (thorough: 20-140) add/update/set-admin/remove/config-change operations over 1-5 users "
+             "and 2-4 cheap parameter sets of both algorithms (any default; sets withdrawn and restored), passwords of "
+             "0..4096 bytes incl. ':' LF NUL and non-UTF-8, auxiliary data attached behind the store's back; after "
+             "operations the near-miss family of every user's last password is probed (prefixes, extensions, case/bit "
+             "flip, whitespace, truncations, trailing NULs, 64-byte padding, SHA-256 of long passwords, another user's "
+             "password).",
+        trusted=[T_CRYPTO, T_FS],
+        partial=["collision resistance of the KDFs (a password with a different key never has the same digest) is a "
+                 "cryptographic hypothesis; the run compares verdicts with the harness's own keyEquiv specification"],
+        assumptions=["no symlinks or special files inside the base directory"],
+    ),
+    "C02": dict(
+        modules=["Whawty.Props.C02"],
+        suites=[("hdrv", "c02")],
+        level_text="auth_iff_record: for ANY bytes as the user's file, authentication succeeds iff the first line parses "
+                   "(model of bufio.ReadString, SplitN, strconv.ParseInt/ParseUint, Go's non-strict URL base64) as a record "
+                   "of a configured set with matching format id and digest equality; foreign_record_accepted uses the "
+                   "model's own independent formatter; unsupported-file rules for add/update/remove. The real store is "
+                   "run on systematically mutated files and compared with the model and with an independent schema reader.",
+        rule="Per generated configuration ~300 file contents: records of the harness's own formatter (with/without aux, "
+             "without newline), every field emptied / swapped pairwise, truncation at (sampled; thorough: every) length, "
+             "3..7 separators, std/raw/CR-LF/non-canonical base64, digest prefixes/extension/bit flip, CR/LF/NUL insertions, "
+             "other algorithm and parameter-set ids (0, unknown, +id, 0id, 2^64-1, 2^64, -1, 0x1), time-stamp edge cases, "
+             "64 KiB / 1 MiB lines, random bytes; each observed with right/wrong/empty password, list, list-full, add, "
+             "update, remove.",
+        trusted=[T_CRYPTO, T_FS],
+        assumptions=["file contents are those of regular files (FIFOs/devices would block open)"],
+    ),
+    "C16": dict(
+        modules=["Whawty.Props.C16"],
+        suites=[("hdrv", "c16")],
+        level_text="check_exact characterises Dir.Check without reference to iteration order (proved from the fold over "
+                   "readdir entries), check_perm_invariant gives order independence, init_only_on_empty and "
+                   "init_produces_valid_store cover initialisation; generated directories and histories are run on the "
+                   "real store and compared with the model and with an independent statement of the property.",
+        rule="Directories of 0-6 entries from valid names: .user/.admin files (supported, unknown set, empty, garbage, other "
+             "algorithm's format id), other extensions, sub-directories with user-file names, .tmp as directory or file, "
+             "invalid-named files, double extensions; Check/List/ListFull/Exists/Init observed. Histories from an "
+             "initialised store that never remove or demote the last administrator: Check, no-two-files and empty work "
+             "area after every operation.",
+        trusted=[T_CRYPTO, T_FS],
+        partial=["ops_preserve_valid (invariant preservation over histories) and the CLI gate (exit status 3 unless "
+                 "--do-check=false) are decided by the run, not yet by a theorem"],
+    ),
     "C05": dict(
         modules=["Whawty.Props.C05"],
         suites=[("hdrv+pam", "c05")],
